@@ -1,0 +1,78 @@
+// Verification hooks. Compiled only with the `verif_hooks` cargo feature; with the
+// feature off nothing in this file exists and no call site is compiled in.
+
+//! Read-only probes and a logical step counter used by external runtime monitors.
+
+use std::cell::Cell;
+
+thread_local! {
+    static TICKS: Cell<u64> = Cell::new(0);
+    static BUDGET: Cell<Option<u64>> = Cell::new(None);
+}
+
+/// Arms a step budget for the current thread and resets the step counter.
+/// Once more than `budget` steps are counted, `tick` panics.
+pub fn arm(budget: u64) {
+    TICKS.with(|t| t.set(0));
+    BUDGET.with(|b| b.set(Some(budget)));
+}
+
+/// Disarms the step budget and returns the number of steps counted since `arm`.
+pub fn disarm() -> u64 {
+    BUDGET.with(|b| b.set(None));
+    TICKS.with(|t| t.get())
+}
+
+/// Counts one iteration of a state-machine / event loop.
+pub(crate) fn tick(site: &'static str) {
+    let n = TICKS.with(|t| {
+        let n = t.get().wrapping_add(1);
+        t.set(n);
+        n
+    });
+    if let Some(budget) = BUDGET.with(|b| b.get()) {
+        if n > budget {
+            // Disarm first so that unwinding code cannot trip the budget again.
+            BUDGET.with(|b| b.set(None));
+            panic!("verif: step budget {} exceeded at {}", budget, site);
+        }
+    }
+}
+
+/// Snapshot of the internal state of an `HttpConnection`.
+#[derive(Clone, Debug, Default, PartialEq, Eq, Hash)]
+pub struct ConnectionProbe {
+    /// 0 = waiting for request line, 1 = headers, 2 = body, 3 = request ready.
+    pub state: u8,
+    /// Number of carried-over bytes at the start of the receive window.
+    pub read_cursor: usize,
+    /// Body bytes still missing.
+    pub body_bytes_to_be_read: u32,
+    /// Body bytes accumulated so far.
+    pub body_len: usize,
+    /// Whether a request is under construction.
+    pub has_pending_request: bool,
+    /// Completed requests not yet popped.
+    pub parsed_requests: usize,
+    /// Responses not yet serialized.
+    pub response_queue: usize,
+    /// Unsent bytes of the response being written, if any.
+    pub response_buffer: Option<usize>,
+    /// Descriptors received and not yet attached to a request.
+    pub files: usize,
+    /// Payload limit of this connection.
+    pub payload_max_size: usize,
+}
+
+/// Snapshot of one server-side client connection.
+#[derive(Clone, Debug, Default, PartialEq, Eq, Hash)]
+pub struct ClientProbe {
+    /// Descriptor number used as identifier.
+    pub fd: i32,
+    /// 0 = awaiting incoming, 1 = awaiting outgoing, 2 = closed.
+    pub state: u8,
+    /// Requests yielded minus responses absorbed.
+    pub in_flight: u32,
+    /// Inner connection.
+    pub connection: ConnectionProbe,
+}
